@@ -52,7 +52,7 @@ def floors(tier):
     return {'evaluations': 15000, 'distinct_nontrivial': 4000, 'callbacks_checked': 200000,
             'none_placeholders_seen': 2000, 'histkeys:callback': 9, 'trees_with_none_body_or_args': 50,
             'empty_nodelist_arguments_seen': 500, 'nonempty_nodelist_arguments_seen': 500,
-            'catch_all_visitor_runs': 5000, 'histkeys:catch_all_for': 9, 'hist:catch_all_for:visit_specials_node': 200}
+            'catch_all_visitor_runs': 5000, 'argument_lists_counted': 20000, 'histkeys:catch_all_for': 9, 'hist:catch_all_for:visit_specials_node': 200}
 
 
 def setup(rec):
@@ -226,6 +226,14 @@ def check_tree(root, rec, mask=None):
     if r.odd:
         rec.monitor('trees_with_none_body_or_args')
     kinds = set()
+    # "absent optional arguments appear as None placeholders": an arguments object has one entry per declared argument
+    for i, (gname, gobj, gkw, gtok) in enumerate(got):
+        if isinstance(gobj, ParsedArguments) and gobj.argnlist is not None and gobj.arguments_spec_list is not None:
+            rec.monitor('argument_lists_counted')
+            if len(gobj.argnlist) != len(gobj.arguments_spec_list):
+                return 'callback %d: the arguments object holds %d entries for %d declared arguments (%s): a placeholder ' \
+                       'for an absent argument is missing' % (i, len(gobj.argnlist), len(gobj.arguments_spec_list),
+                                                               canon.short(list(gobj.argnlist))[:100]), None
     # exactly once: no object may receive two callbacks (an object shared between two parents is reachable twice)
     seen = {}
     for i, (gname, gobj, gkw, gtok) in enumerate(got):
